@@ -18,6 +18,19 @@ def spec (net _net' : Net) (toks : List String) (ires : String) : Option String 
         | none => none
       else none
     | _, _ => none
+  | ["lookupq", n, k] =>
+    -- issued only after the repair tasks reached a fixpoint on a ring without failed nodes ("the ring has
+    -- stabilized" in the operational sense): the answer must be the first live member at or after the key,
+    -- whether or not the pointers pass the executable stability test
+    match n.toNat?, k.toNat? with
+    | some n, some k =>
+      if memB net n && decide (k < M) then
+        match ownerOf net k with
+        | some o => if ires == s!"found:{o}" then none
+                    else some s!"lookup after the repair tasks reached a fixpoint: owner of {k} is {o}"
+        | none => none
+      else none
+    | _, _ => none
   | _ => none
 
 def main : IO Unit := runLoop ([] : Net) (ringStep spec)
